@@ -529,6 +529,13 @@ def main(argv):
         return check(pid, tier, seed)
     if argv[1] == "replay":
         return replay(argv[2], argv[3])
+    if argv[1] == "gotest":
+        # development aid: go test with the staged modfile, e.g. verif.py gotest ./c12 -run TestProp -rapid.checks=1000
+        run = Run("dev")
+        try:
+            return subprocess.call(["go", "test", "-modfile=" + run.modfile, "-tags", "verif", "-vet=off"] + argv[2:], cwd=HARNESS, env=goenv())
+        finally:
+            run.cleanup()
     print(__doc__)
     return 2
 
